@@ -8,5 +8,7 @@ def put(s, tag, text):
     i = s.index(a) + len(a); j = s.index(b)
     return s[:i] + "\n" + text.rstrip("\n") + "\n" + s[j:]
 s = put(s, "SUMMARY", subprocess.check_output([os.path.join(V, "tools", "summary_table.py")], text=True))
+if "<!-- PRESERVING-BEGIN -->" in s:
+    s = put(s, "PRESERVING", subprocess.check_output([os.path.join(V, "tools", "preserving_table.py")], text=True))
 s = put(s, "SEEDED", subprocess.check_output([os.path.join(V, "tools", "seeded_table.py")], text=True))
 open(p, "w").write(s)
